@@ -14,6 +14,30 @@ CLAIMED = {
         "Trusted: Coq kernel (vm_compute), vlib/py2coq.py + translate.py (validated exhaustively on this domain), README table parser.",
         "DESIGN.md section 5 C03",
     ),
+    "C04": (
+        "Coq proof by structural induction over expressions about a hand-written executable model of the Transformer + correspondence (vm_compute) with ahbicht",
+        "Theorems C04_state/C04_outcome (Props/C04.v): for every in-domain, structurally valid expression and every assignment the model's evaluation returns the "
+        "recursive four-valued semantics and the documented outcome mapping; no bound on size. The model (coq/Model/EvalRC.v) uses the operators and key ranges "
+        "regenerated from /repo and is tied to ahbicht by the correspondence: every tree with <= 3 leaves x all assignments (exhaustive) plus random trees, "
+        "comparing node kind, state, hint text and the collected expression string.",
+        "Trusted: Coq kernel, translator (Gen_logic, Gen_ranges), the hand-written model of Lark's Transformer order / VisitError unwrapping and of the two expression builders "
+        "(validated only by the correspondence sample), dict-based evaluators.",
+        "DESIGN.md section 5 C04",
+    ),
+    "C05": (
+        "Coq proof (one-hole contexts, congruence lemma, monotonicity in the information order) over the evaluation model + metamorphic oracle on ahbicht",
+        "Theorems C05_hint_and_operand / C05_attach_fc / C05_swap_operands / C05_definite_is_stable (Props/C05.v) hold for every context, expression and assignment; "
+        "redundant brackets leave no trace in the tree (C01). The same relations are executed on ahbicht at every applicable position of sampled expressions.",
+        "Trusted: as C04; the bracket clause rests on the parser model of C01.",
+        "DESIGN.md section 5 C05",
+    ),
+    "C06": (
+        "Coq proof by structural induction (same invariant as C04) over the evaluation model + correspondence + all-assignments oracle",
+        "Theorems C06_invalid_always / C06_valid_never (Props/C06.v): a structural predicate `valid` decides, for every assignment at once, whether evaluation raises the "
+        "invalid-expression error. Correspondence and oracle: all trees <= 3 leaves x all assignments.",
+        "Trusted: as C04. The validity-check entry point (is_valid_expression) is covered by the correspondence of the AHB-level model once that layer is built (see DESIGN.md section 12).",
+        "DESIGN.md section 5 C06",
+    ),
 }
 
 PENDING_REASON = "not yet built in this round: the Coq model/theorems for this property are under construction (see DESIGN.md section 11); no check is claimed until it exists"
